@@ -18,7 +18,7 @@ CLAIM = dict(
          "(one _ListDict_ and one get_weight dictionary per spec edge in the cascade's order, set-up, selection cascade + choose_random, "
          "the incremental update of the potential transitions in the directed and the undirected branch, data/node_history/transmissions, "
          "the Simulation_Investigation constructor's failure modes): the bookkeeping invariant (every potential_transitions[tr] is exactly the "
-         "set of nodes / ordered neighbour pairs enabled by the current statuses, with the right weights) holds initially and after every event; "
+         "set of nodes / ordered neighbour pairs enabled by the current statuses, with the right weights) holds initially (C03_simple_inv_initial) and after every event (C03_simple_inv_step); "
          "under it one jump selects (transition, actor) with probability rate*weight/total, nothing outside the enabled set has positive mass, "
          "the waiting-time rate is the total rate, the loop stops iff total = 0 or t >= tmax, counts track statuses, and EoNError is raised iff "
          "the specification is malformed.  Tie: trace-level correspondence of the extracted model with /repo on random and exhaustively "
@@ -74,7 +74,7 @@ def run(run, tier):
     if corpus:
         SC.run_cases(L, EoN, sim, corpus, ['D %d %s' % (len(j['draws']), R.qtoks(j['draws'])) for j in C.load_corpus(PID)], oracle=orc, nontrivial=L.nontrivial, res=res, label='corpus')
     # 1. random specifications, random walks of the sampler program
-    nrand = 2500 if quick else 40000
+    nrand = 8000 if quick else 100000
     cases = []; modes = []
     for i in range(nrand):
         r = rng.random()
@@ -83,8 +83,8 @@ def run(run, tier):
     SC.run_cases(L, EoN, sim, cases, modes, oracle=orc, nontrivial=L.nontrivial, res=res, label='random')
     # 2. every path of small cases (model-guided exhaustive exploration)
     delays = [F(1, 4), F(3, 2)]
-    sm = small_cases(rng, 3 if quick else 4, 2 if quick else 3, ['SIS', 'SIR', 'SIRS', 'SEIR', 'vaccination', 'random', 'random', 'odd'], tier)
-    amode = 'A %d %d %d %s' % (9 if quick else 12, 40 if quick else 150, len(delays), R.qtoks(delays))
+    sm = small_cases(rng, 3 if quick else 4, 3 if quick else 4, ['SIS', 'SIR', 'SIRS', 'SEIR', 'vaccination', 'random', 'random', 'odd'], tier)
+    amode = 'A %d %d %d %s' % (10 if quick else 13, 80 if quick else 220, len(delays), R.qtoks(delays))
     SC.run_cases(L, EoN, sim, sm, [amode] * len(sm), oracle=orc, nontrivial=L.nontrivial, res=res, label='exhaustive')
     # 3. the legacy alias forwards to the same function (sim_kwargs must be a mapping there)
     leg = []
